@@ -562,17 +562,37 @@ impl<I: Ip> PeerMap<I> {
                     Self::Large(peer_map) => peer_map.insert(peer_map_key, peer),
                 }
 
-                if config.statistics.peer_clients && opt_removed_peer.is_none() {
-                    statistics_sender
-                        .try_send(StatisticsMessage::PeerAdded(request.peer_id))
-                        .expect("statistics channel should be unbounded");
+                if config.statistics.peer_clients {
+                    match opt_removed_peer {
+                        None => {
+                            statistics_sender
+                                .try_send(StatisticsMessage::PeerAdded(request.peer_id))
+                                .expect("statistics channel should be unbounded");
+                        }
+                        // Peer (identified by address and port) re-announced
+                        // with a different peer id: count the stored peer id
+                        // as removed and the new one as added
+                        Some(removed_peer) if removed_peer.peer_id != request.peer_id => {
+                            statistics_sender
+                                .try_send(StatisticsMessage::PeerRemoved(removed_peer.peer_id))
+                                .expect("statistics channel should be unbounded");
+                            statistics_sender
+                                .try_send(StatisticsMessage::PeerAdded(request.peer_id))
+                                .expect("statistics channel should be unbounded");
+                        }
+                        Some(_) => (),
+                    }
                 }
             }
             PeerStatus::Stopped => {
-                if config.statistics.peer_clients && opt_removed_peer.is_some() {
-                    statistics_sender
-                        .try_send(StatisticsMessage::PeerRemoved(request.peer_id))
-                        .expect("statistics channel should be unbounded");
+                if config.statistics.peer_clients {
+                    // Use peer id of stored peer, since it is the one that
+                    // was counted when the peer was added
+                    if let Some(removed_peer) = opt_removed_peer {
+                        statistics_sender
+                            .try_send(StatisticsMessage::PeerRemoved(removed_peer.peer_id))
+                            .expect("statistics channel should be unbounded");
+                    }
                 }
             }
         };
